@@ -100,15 +100,16 @@ def mixer_schedule(rec, quick):
         for ename, Eng in (('TwoSiteDMRGEngine', dmrg.TwoSiteDMRGEngine), ('SingleSiteDMRGEngine', dmrg.SingleSiteDMRGEngine)):
             for mixer in (['DensityMatrixMixer'] if quick else ['DensityMatrixMixer', 'SubspaceExpansion']):
                 for disable_after in ((2, 4) if quick else (1, 2, 3, 4, 6)):
-                    for n_sweeps in range(max(1, disable_after - 2), disable_after + 3):
-                        opts = {'trunc_params': {'chi_max': 16, 'svd_min': 1e-12}, 'mixer': mixer, 'max_sweeps': n_sweeps, 'min_sweeps': n_sweeps,
+                    for n_sweeps, chi_max in [(n_, c_) for n_ in range(max(1, disable_after - 2), disable_after + 3) for c_ in ((16, 3) if bc == 'finite' else (16,))]:
+                        # chi_max=3: the bond dimension is really truncated (also while the mixer is still switched on)
+                        opts = {'trunc_params': {'chi_max': chi_max, 'svd_min': 1e-12}, 'mixer': mixer, 'max_sweeps': n_sweeps, 'min_sweeps': n_sweeps,
                                 'N_sweeps_check': 1, 'max_trunc_err': None, 'update_env': 0,
                                 'mixer_params': {'amplitude': 1e-3, 'decay': 2., 'disable_after': disable_after}}
-                        inp = {'bc': bc, 'engine': ename, 'mixer': mixer, 'disable_after': disable_after, 'sweeps': n_sweeps}
+                        inp = {'bc': bc, 'engine': ename, 'mixer': mixer, 'disable_after': disable_after, 'sweeps': n_sweeps, 'chi_max': chi_max}
                         psi = psi0.copy()
                         rec.begin(f'C13 mixer schedule {inp}')
                         ok, res = rec.guarded(f'{ename}[mixer-schedule]:exception', lambda: Eng(psi, M, opts).run(), inp)
-                        rec.case(('mixer-schedule', bc, ename, mixer, disable_after, n_sweeps), True)
+                        rec.case(('mixer-schedule', bc, ename, mixer, disable_after, n_sweeps, chi_max), True)
                         if not ok:
                             continue
                         E, out = res
@@ -122,6 +123,12 @@ def mixer_schedule(rec, quick):
                         rec.check(np.max(np.abs(out.norm_test())) < 2e-5, f'{ename}:not-canonical{tag}', str(np.max(np.abs(out.norm_test()))), inp)
                         ok2, ee = rec.guarded(f'{ename}:entanglement_entropy-after-run', lambda: out.entanglement_entropy(), inp)
                         if bc == 'finite':
+                            # "the returned state is normalized": Schmidt values of norm one on every bond, <psi|psi> = 1
+                            dev = max(abs(np.linalg.norm(out.get_SL(i)) - 1.) for i in range(1, out.L))
+                            rec.check(dev < 1e-9, f'{ename}:schmidt-values-not-normalized', f'max | |S| - 1 | = {dev}', inp)
+                            nn = abs(out.overlap(out)) * out.norm ** 2
+                            rec.check(abs(nn - 1.) < 1e-9, f'{ename}:state-not-normalized', f'<psi|psi> = {nn}', inp)
+                        if bc == 'finite' and chi_max == 16:
                             # (the energy of an unconverged infinite run is an estimate per sweep, not an expectation value)
                             EH = M.H_MPO.expectation_value(out)
                             rec.check(abs(E - EH) < 1e-5, f'{ename}:E-not-expectation-value', f'E={E}, <H>={EH}', inp)
